@@ -222,10 +222,14 @@ fn real_type_units() -> Vec<(String, CompileUnit)> {
 pub fn run(ctx: &Ctx) -> Outcome {
     let mut out = Outcome::new("exploration");
     let (atoms, callees, depth): (Vec<RType>, Vec<Vec<String>>, usize) = match ctx.tier {
-        Tier::Quick => (vec![RType::Unit, RType::Path(path("a")), RType::Path(path("B")), RType::Path(path("a::B")), RType::Path(path("B::c9::a"))], vec![path("a::B")], 2),
-        Tier::Thorough => (
+        Tier::Quick => (
             vec![RType::Unit, RType::Path(path("a")), RType::Path(path("B")), RType::Path(path("c9")), RType::Path(path("a::B")), RType::Path(path("B::a")), RType::Path(path("B::c9::a")), RType::Path(path("c9::c9::c9"))],
             vec![path("a"), path("B::c9")],
+            2,
+        ),
+        Tier::Thorough => (
+            vec![RType::Unit, RType::Path(path("a")), RType::Path(path("B")), RType::Path(path("c9")), RType::Path(path("a::B")), RType::Path(path("B::a")), RType::Path(path("B::c9::a")), RType::Path(path("c9::c9::c9")), RType::Path(path("a::a")), RType::Path(path("_x::B"))],
+            vec![path("a"), path("B::c9"), path("c9::a::B")],
             2,
         ),
     };
